@@ -254,7 +254,10 @@ def _job_cost(job: dict) -> dict:
                 # unitary" is not unique there, nothing to compare
                 extra = []
             found, label = judge_cost(case, tspecs, extra, broken)
-            if job.get('stale') and L == 1:
+            do_stale = bool(job.get('stale')) and L == 1 and not any(
+                'unitary' in broken.get(n, ())
+                for o in case['ops'] for n in _native_names(o[0]))
+            if do_stale:
                 found += _stale_structure(case)
             acc.n += 1
             acc.nontriv += _nontrivial(case)
@@ -266,7 +269,7 @@ def _job_cost(job: dict) -> dict:
                 acc.viol.append((s, w, {
                     'kind': 'cost', 'case': case, 'targets': tspecs,
                     'extra_points': extra, 'broken': broken,
-                    'stale': bool(job.get('stale') and L == 1)}))
+                    'stale': do_stale}))
             if acc.n % 199 == 1:
                 acc.samples.append({'cost-case': case,
                                     'targets': tspecs[:3]})
@@ -550,7 +553,7 @@ def run(ctx: Ctx) -> None:
         'library supports (Minimization: all targets; QFactor: unitary '
         'targets, gates the engine can optimize)',
     ]
-    budget = 65.0 if ctx.quick else 1500.0
+    budget = 60.0 if ctx.quick else 1500.0
     deadline = ctx.t0 + budget
     broken, viol, n = native_scan(ctx.seed)
     ctx.cov['evaluations'] += n
@@ -564,7 +567,7 @@ def run(ctx: Ctx) -> None:
         j['deadline'] = deadline
     done_jobs = 0
     unfinished: list = []
-    for r in pmap(_dispatch, jobs, procs=ctx.procs, deadline=deadline + 20):
+    for r in pmap(_dispatch, jobs, procs=ctx.procs, deadline=deadline + 10):
         done_jobs += 1
         ctx.cov['evaluations'] += r['n']
         ctx.cov['distinct_nontrivial'] += r['nontriv']
